@@ -37,10 +37,47 @@ func checkC19(p *Prog, r *Report) {
 	}
 	acls, remoteAddr := fn.Params[0], fn.Params[1]
 
+	var pe *PathEnum
+	canon := func(v ssa.Value) ssa.Value { // a helper's parameter / result → the caller's value
+		if pe == nil {
+			return v
+		}
+		return pe.V(pe.C(unwrapLocal(pe.V(v))))
+	}
 	// provenance helpers
 	isSplit := func(v ssa.Value, idx int) bool {
-		c, i := extractOf(v)
-		return c != nil && i == idx && calleeName(c) == "net.SplitHostPort" && c.Common().Args[0] == remoteAddr
+		c, i := extractOf(canon(v))
+		if c == nil || i != idx || calleeName(c) != "net.SplitHostPort" {
+			return false
+		}
+		a := canon(c.Common().Args[0])
+		if a == ssa.Value(remoteAddr) {
+			return true
+		}
+		// inside an address-parsing helper: its parameter, which every caller binds to remoteAddr
+		hp, isP := a.(*ssa.Parameter)
+		if !isP || hp.Parent() == fn {
+			return false
+		}
+		h := hp.Parent()
+		k := -1
+		for j, pp := range h.Params {
+			if pp == hp {
+				k = j
+			}
+		}
+		n := 0
+		for _, e := range p.ModGraph().In[h] {
+			if isTestSupport(pkgPathOfFunc(e.From)) {
+				continue
+			}
+			cs, ok := e.Site.(ssa.CallInstruction)
+			if !ok || e.Escape || cs.Common().StaticCallee() != h || e.From != fn || k < 0 || k >= len(cs.Common().Args) || unwrapLocal(cs.Common().Args[k]) != ssa.Value(remoteAddr) {
+				return false
+			}
+			n++
+		}
+		return n > 0
 	}
 	// the host, possibly with its IPv6 zone cut off: strings.Cut(host, "%") #0
 	isHost := func(v ssa.Value) bool {
@@ -56,7 +93,7 @@ func checkC19(p *Prog, r *Report) {
 		return false
 	}
 	isRemoteIP := func(v ssa.Value) bool {
-		c, ok := v.(*ssa.Call)
+		c, ok := canon(v).(*ssa.Call)
 		return ok && calleeName(c) == "net.ParseIP" && isHost(c.Common().Args[0])
 	}
 	// C19/ZONE-STRIPPED (F29): Accept names a link-local IPv6 peer with its
@@ -121,11 +158,25 @@ func checkC19(p *Prog, r *Report) {
 		s, ok2 := constStr(c.Common().Args[1])
 		return ok2 && s == " " && isACL(c.Common().Args[0])
 	}
+	isCutOfACL := func(v ssa.Value, idx int) bool { // strings.Cut(acl, " ") #idx
+		c, i := extractOf(v)
+		if c == nil || i != idx || calleeName(c) != "strings.Cut" {
+			return false
+		}
+		sep, ok := constStr(c.Common().Args[1])
+		return ok && sep == " " && isACL(c.Common().Args[0])
+	}
 	isAction := func(v ssa.Value) bool { // acl[:i]
+		if isCutOfACL(v, 0) {
+			return true
+		}
 		sl, ok := v.(*ssa.Slice)
 		return ok && isACL(sl.X) && sl.Low == nil && sl.High != nil && isSpaceIdx(sl.High) && sl.Max == nil
 	}
 	isWho := func(v ssa.Value) bool { // acl[i+1:]
+		if isCutOfACL(v, 1) {
+			return true
+		}
 		sl, ok := v.(*ssa.Slice)
 		if !ok || !isACL(sl.X) || sl.High != nil || sl.Low == nil {
 			return false
@@ -208,6 +259,11 @@ func checkC19(p *Prog, r *Report) {
 			if neg, ok := errNil(x, func(v ssa.Value) bool { return isCIDR(v, 2) }); ok {
 				return "BAD", neg, true
 			}
+		case *ssa.Extract:
+			// _, _, ok := strings.Cut(acl, " "): NS is its negation
+			if isCutOfACL(x, 2) {
+				return "NS", true, true
+			}
 		case *ssa.Call:
 			// IN: (*net.IPNet).Contains(cidr, remoteIP)
 			if calleeName(x) == "(*net.IPNet).Contains" {
@@ -221,8 +277,10 @@ func checkC19(p *Prog, r *Report) {
 	}
 
 	r.Rule("C19/ACL-TABLE", "decision table of rsyncd.checkACL extracted path by path (atoms identified by provenance: Z=len(acls)==0, H/P=peer address unparsable, MORE=range over acls in order, NS=no space, A/D=action text, ALL=who==\"all\", BAD=ParseCIDR error, IN=(*net.IPNet).Contains(peer IP)) and compared with first-match allow/deny, default allow, error on a malformed rule reached", 12)
-	pe := &PathEnum{
+	pe = &PathEnum{
 		Atom: atom,
+		// helpers of the package that checkACL is split into (address parsing, error construction)
+		Inline: func(f *ssa.Function) bool { return pkgPathOfFunc(f) == pkgRsyncd },
 		Outcome: func(last ssa.Instruction, _ []string) string {
 			ret, ok := last.(*ssa.Return)
 			if !ok {
